@@ -110,8 +110,11 @@ static void chain(Dig& d, PDU* p) { for (; p; p = p->inner_pdu()) d.u((uint64_t)
 // C01/C02/C03/C06: build a catalogue packet, serialise, parse, run every accessor, clone, serialise again
 static void wl_catalogue(uint64_t seed, int iters, Dig& d, Yield& y) {
     vh::Rng rng(seed);
-    for (int i = 0; i < iters; ++i) {
-        int id = (int)rng.below(CATALOGUE_SIZE); Entry e;
+    // every composition of the catalogue in every run (starting somewhere else per thread): whatever a layer class might keep
+    // at namespace scope is touched by every thread
+    const int start = (int)rng.below(CATALOGUE_SIZE);
+    for (int i = 0; i < CATALOGUE_SIZE + iters; ++i) {
+        int id = (start + i) % CATALOGUE_SIZE; Entry e;
         std::unique_ptr<PDU> p(catalogue(id, rng, e)); y();
         Bytes b = p->serialize(); d.bytes(b); y();
         try {
@@ -300,6 +303,31 @@ static void wl_wifi(uint64_t seed, int iters, Dig& d, Yield& y) {
         }
     }
 }
+// C09, key learning: many four-way handshakes per thread (re-associations of one station with fresh nonces), each followed by
+// one protected frame - every completed handshake runs the MIC check and the key derivation
+static void wl_handshakes(uint64_t seed, int iters, Dig& d, Yield& y) {
+    vh::Rng rng(seed);
+    uint8_t ap[6] = {0x02, 0x31, (uint8_t)seed, (uint8_t)(seed >> 8), 0x33, 0x01}, sta[6] = {0x02, 0x32, (uint8_t)seed, (uint8_t)(seed >> 8), 0x44, 0x02};
+    static const uint8_t llc_ip[8] = {0xaa, 0xaa, 0x03, 0, 0, 0, 0x99, 0x99};
+    std::string ssid = "hs-" + std::to_string(seed % 100000), pass = "pass-phrase-" + std::to_string(seed * 11);
+    Bytes pmk = wenc::pmk_from_passphrase(pass, ssid); Crypto::WPA2Decrypter dec; dec.add_ap_data(pass, ssid, HWAddress<6>(ap));
+    for (int round = 0; round < iters * 12; ++round) {
+        bool ccmp = (round % 2) == 0;
+        Bytes an = rndb(rng, 32), sn = rndb(rng, 32); Bytes ptk = wenc::ptk(pmk, ap, sta, an.data(), sn.data(), 80);
+        for (int n = 1; n <= 4; ++n) {
+            Bytes e = wenc::fourway_msg(n, ccmp, n <= 2 ? 5 + 2 * round : 6 + 2 * round, an.data(), sn.data(), ptk, rndb(rng, 56));
+            wenc::Hdr h; if (n == 1 || n == 3) { h.fc1 = 2; memcpy(h.a1, sta, 6); memcpy(h.a2, ap, 6); memcpy(h.a3, ap, 6); } else { h.fc1 = 1; memcpy(h.a1, ap, 6); memcpy(h.a2, sta, 6); memcpy(h.a3, ap, 6); }
+            Bytes body(wenc::LLC_EAPOL, wenc::LLC_EAPOL + 8); wenc::put(body, e);
+            try { std::unique_ptr<PDU> p = dot11_from(h, body); d.u(dec.decrypt(*p)); } catch (std::exception& ex) { d.s(typeid(ex).name()); }
+            y();
+        }
+        wenc::Hdr h; h.fc1 = (uint8_t)(0x40 | 2); memcpy(h.a1, sta, 6); memcpy(h.a2, ap, 6); memcpy(h.a3, ap, 6); h.sc = (uint16_t)((round + 1) << 4);
+        Bytes plain(llc_ip, llc_ip + 8); Bytes pay = rndb(rng, 24); plain.insert(plain.end(), pay.begin(), pay.end()); uint8_t pn[6] = {1, 0, 0, 0, 0, 0};
+        Bytes body = ccmp ? wenc::ccmp_body(ptk.data() + 32, h, pn, 0, plain) : wenc::tkip_body(ptk.data() + 32, ptk.data() + 48, h.a2, h.da(), h.sa(), h.priority(), pn, 0, plain);
+        try { std::unique_ptr<PDU> p = dot11_from(h, body); bool ok = dec.decrypt(*p); dig_plain(d, *p, ok); } catch (std::exception& ex) { d.s(typeid(ex).name()); }
+        y();
+    }
+}
 // C02/C04/C12: packets built through the API, option containers edited, copied, moved through Packet, serialised
 static void wl_build(uint64_t seed, int iters, Dig& d, Yield& y) {
     vh::Rng rng(seed);
@@ -358,7 +386,7 @@ template <size_t n> const PDU::PDUType UserPDU<n>::pdu_flag = static_cast<PDU::P
 
 typedef void (*Workload)(uint64_t, int, Dig&, Yield&);
 struct WlDef { const char* name; Workload fn; };
-static const WlDef WORKLOADS[] = {{"catalogue", wl_catalogue}, {"dns", wl_dns}, {"tags", wl_tags}, {"reasm", wl_reasm}, {"addr", wl_addr}, {"radiotap", wl_radiotap}, {"wifi", wl_wifi}, {"build", wl_build}, {"pcap", wl_pcap}};
+static const WlDef WORKLOADS[] = {{"catalogue", wl_catalogue}, {"dns", wl_dns}, {"tags", wl_tags}, {"reasm", wl_reasm}, {"addr", wl_addr}, {"radiotap", wl_radiotap}, {"wifi", wl_wifi}, {"build", wl_build}, {"pcap", wl_pcap}, {"handshakes", wl_handshakes}};
 static const int NWL = sizeof(WORKLOADS) / sizeof(WORKLOADS[0]);
 static int wl_index(const std::string& n) { for (int i = 0; i < NWL; ++i) if (n == WORKLOADS[i].name) return i; return -1; }
 
